@@ -154,7 +154,7 @@ RScript(vs, sd, t, n, pending, last, macro, atseen) ==
             v1 == ViCmd(vs, c)
             (* a change whose target fails leaves its text in the queue: the keys would be read as commands; such queues are not generated *)
             bad == c0.k = "op" /\ c0.op = "c" /\ ~ViCmd(vs, c0).ok /\ ~p.typed
-        IN IF bad THEN <<>>
+        IN IF bad THEN <<[keys |-> <<>>, xkeys |-> <<>>, kind |-> "cut", sub |-> "cut", queued |-> 0, exp |-> Proj(vs), thm |-> 1]>>     \* the harness drops the repeat that led here
            ELSE <<[keys |-> IF p.typed THEN p.tkeys ELSE <<>>, xkeys |-> IF p.typed THEN p.tkeys ELSE Keys(c), kind |-> c.k, sub |-> SubOf(c),
                    queued |-> IF p.typed THEN 0 ELSE 1, exp |-> Proj(v1), thm |-> IF Thm(vs, c, v1) THEN 1 ELSE 0]>>
                 \o RScript(v1, sd, t, n, Tail(pending), IF Repeatable(c) THEN c ELSE last, macro, atseen)
